@@ -368,14 +368,39 @@ impl Harness {
     }
 }
 
+// ---- watchdog: a case that does not finish within the limit stops the process (exit code 97) after its id has been
+// written to <out>.hang; the harness reports that case and carries on behind it ----
+static CASE_STARTED_MS: std::sync::atomic::AtomicU64 = std::sync::atomic::AtomicU64::new(0);
+static CASE_SEQ: std::sync::atomic::AtomicU64 = std::sync::atomic::AtomicU64::new(0);
+
+fn now_ms() -> u64 {
+    std::time::SystemTime::now().duration_since(std::time::UNIX_EPOCH).map(|d| d.as_millis() as u64).unwrap_or(0)
+}
+
 pub fn main() {
     *crate::setting::ENABLE_PRINT_OPCODE.write().unwrap() = false;
     *crate::setting::ENABLE_PRINT_MESSAGES.write().unwrap() = false;
     std::panic::set_hook(Box::new(|_| {}));
     let inp = std::env::var("KOGE29_VERIF_IN").expect("KOGE29_VERIF_IN");
     let outp = std::env::var("KOGE29_VERIF_OUT").expect("KOGE29_VERIF_OUT");
+    let limit_ms: u64 = std::env::var("KOGE29_VERIF_CASE_LIMIT").ok().and_then(|v| v.parse::<u64>().ok()).unwrap_or(180) * 1000;
     let reader = std::io::BufReader::new(std::fs::File::open(inp).expect("open case file"));
-    let mut out = BufWriter::new(std::fs::File::create(outp).expect("create output"));
+    let mut out = BufWriter::new(std::fs::File::create(&outp).expect("create output"));
+    let current: std::sync::Arc<std::sync::Mutex<String>> = std::sync::Arc::new(std::sync::Mutex::new(String::new()));
+    {
+        let current = current.clone();
+        let hang_path = format!("{}.hang", outp);
+        std::thread::spawn(move || loop {
+            std::thread::sleep(std::time::Duration::from_millis(500));
+            let started = CASE_STARTED_MS.load(std::sync::atomic::Ordering::SeqCst);
+            let seq = CASE_SEQ.load(std::sync::atomic::Ordering::SeqCst);
+            if started != 0 && now_ms().saturating_sub(started) > limit_ms && seq == CASE_SEQ.load(std::sync::atomic::Ordering::SeqCst) {
+                let id = current.lock().map(|g| g.clone()).unwrap_or_default();
+                let _ = std::fs::write(&hang_path, id);
+                std::process::exit(97);
+            }
+        });
+    }
     let mut h = Harness::new();
     for line in reader.lines() {
         let line = line.unwrap();
@@ -383,7 +408,14 @@ pub fn main() {
         if line.is_empty() || line.starts_with('#') {
             continue;
         }
+        if let Ok(mut g) = current.lock() {
+            *g = line.split(' ').next().unwrap_or("").to_string();
+        }
+        CASE_SEQ.fetch_add(1, std::sync::atomic::Ordering::SeqCst);
+        CASE_STARTED_MS.store(now_ms(), std::sync::atomic::Ordering::SeqCst);
         h.run_case(line, &mut out);
+        CASE_STARTED_MS.store(0, std::sync::atomic::Ordering::SeqCst);
+        out.flush().unwrap();
     }
     out.flush().unwrap();
 }
